@@ -97,6 +97,18 @@ class AD(AO):
     more: tuple[ASTNode, ...] = ()
 
 @dataclass(frozen=True)
+class MixLine:  # a plain dataclass mixin that contributes a property
+    line: int = 0
+
+@dataclass(frozen=True)
+class AX(AV, MixLine):  # empty body, fields come from two bases (the node base is used before this class)
+    pass
+
+@dataclass(frozen=True)
+class AY(MixLine, AO):  # the same with a child-carrying node base second in the MRO
+    pass
+
+@dataclass(frozen=True)
 class AB(ASTNode):
     ka: ASTNode | None = None
     kb: ASTNode | None = None
@@ -138,6 +150,8 @@ def make_universes(order: int):
                               F("ni", PROP, init=False, default=7)]),
             C("AD", g["AD"], [F("c", OPT), F("more", VAR, maxlen=2)], bases=("AO",)),
             C("AB", g["AB"], [F("ka", OPT), F("kb", OPT), F("pa", PROP, alphabet=vals[:2]), F("pb", PROP, alphabet=vals[:2])]),
+            C("AX", g["AX"], [F("v", PROP, alphabet=vals[:2]), F("line", PROP, alphabet=(0, 1))], bases=("AV",)),
+            C("AY", g["AY"], [F("line", PROP, alphabet=(0, 1)), F("c", OPT)], bases=("AO",)),
         ]
 
     US = Universe("c01-struct", specs((0, 1)))
